@@ -1,113 +1,31 @@
-(* The request level: every operation outside the known-finding regions is its
+(* The request level: every operation (outside the region of F10f) is its
    section-3 transformer, operations compose in order, the checker accepts the
-   model; untouched graphs, fresh blank nodes, the historical loop. *)
+   model; untouched graphs, fresh blank nodes, the historical definitions. *)
 From Coq Require Import Arith.
 From RV Require Import Update.Model Update.Proofs Update.Ops.
 Local Open Scope N_scope.
 
-(* with the switch on, outside the regions of F10a/F10b the evaluators behave
-   as with the switch off *)
-Definition off (e : env) : env :=
-  {| e_fe := e_fe e; e_union := false; e_lits := e_lits e; e_bnodes := e_bnodes e |}.
-
-Lemma off_plain e : has_dataset e = true -> plain (off e).
-Proof. destruct e as [[k| |] u l b]; simpl; try discriminate; reflexivity. Qed.
-
-Lemma graph_plain e : has_dataset e = false -> plain e.
-Proof. destruct e as [[k| |] u l b]; simpl; try discriminate; reflexivity. Qed.
-
-Lemma noff_plain e : e_union e = false -> plain e.
-Proof. destruct e as [[k| |] u l b]; simpl; intros ->; reflexivity. Qed.
-
-Lemma spec_op_off e k o a : spec_op (off e) k o a = spec_op e k o a.
-Proof. reflexivity. Qed.
-
-Lemma fold_dw_off e k tm l : t_triples tm = [] -> forall s,
-  fold_left (dw_one e k tm) l s = fold_left (dw_one (off e) k tm) l s.
+(* one operation is its transformer: every front end, both settings of the switch *)
+Theorem step_correct e k o s a :
+  scope e o -> op_kf e k o = 0 -> kinv s -> qseteq (quads s) a -> step_ok e k o s a.
 Proof.
-  intros Ht. apply fold_left_ext'. intros s im _. unfold dw_one. rewrite Ht. reflexivity.
-Qed.
-
-Lemma dw_off e k tm om s : has_dataset e = true -> e_union e = true ->
-  op_kf e k (DeleteWhere tm om) = 0 ->
-  eval_op e k (DeleteWhere tm om) s = eval_op (off e) k (DeleteWhere tm om) s
-  /\ op_kf (off e) k (DeleteWhere tm om) = 0.
-Proof.
-  intros Hd Hu Hk.
-  assert (Hdo : has_dataset (off e) = true) by (destruct e as [[k0| |] u l b]; auto).
-  unfold op_kf, self_mode in *. rewrite Hd, Hu in Hk. rewrite Hdo.
-  change (e_union (off e)) with false. split.
-  - unfold eval_op, evalDeleteWhere. rewrite Hd, Hdo. simpl negb. rewrite andb_false_r.
-    destruct (has_gvar tm) eqn:Hg; [reflexivity|]. simpl in Hk.
-    destruct om as [|mu om']; [reflexivity|]. simpl in Hk.
-    destruct (t_triples tm) eqn:Ht; [|discriminate]. f_equal. apply fold_dw_off; auto.
-  - destruct (has_gvar tm && negb (is_nil om)); [discriminate|].
-    destruct (lazy_region tm om); [|reflexivity].
-    exfalso. revert Hk.
-    match goal with |- (if ?c then _ else _) = _ -> _ => destruct c end; discriminate.
-Qed.
-
-Lemma eval_op_off e k o s : has_dataset e = true -> op_kf e k o = 0 ->
-  eval_op e k o s = eval_op (off e) k o s /\ op_kf (off e) k o = 0.
-Proof.
-  intros Hd Hk. destruct e as [f u li bn]. destruct u; [|split; [reflexivity|exact Hk]].
-  destruct f as [k0| |]; [discriminate| |].
-  - (* ConjunctiveGraph *)
-    destruct o as [ts qs|ts qs|tm om|w ud un d i om|sl g|sl g|sl x y|sl x y|sl x y]; cbn in Hk.
-    + split; reflexivity.
-    + destruct ts; [split; reflexivity|discriminate].
-    + apply dw_off; auto.
-    + split; [reflexivity|exact Hk].
-    + destruct g; try discriminate; split; reflexivity.
-    + destruct g; split; reflexivity.
-    + destruct x, y; try discriminate; split; reflexivity.
-    + destruct x, y; try discriminate; split; reflexivity.
-    + destruct x, y; try discriminate; split; reflexivity.
-  - (* Dataset *)
-    destruct o as [ts qs|ts qs|tm om|w ud un d i om|sl g|sl g|sl x y|sl x y|sl x y]; cbn in Hk.
-    + destruct ts; [split; reflexivity|discriminate].
-    + destruct ts; [split; reflexivity|discriminate].
-    + apply dw_off; auto.
-    + split; [reflexivity|exact Hk].
-    + destruct g; try discriminate; split; reflexivity.
-    + destruct g; try discriminate; split; reflexivity.
-    + destruct x, y; try discriminate; split; reflexivity.
-    + destruct x, y; try discriminate; split; reflexivity.
-    + destruct x, y; try discriminate; split; reflexivity.
-Qed.
-
-Lemma step_plain e k o s a : plain e ->
-  has_dataset e = true \/ needs_dataset o = false ->
-  op_kf e k o = 0 -> op_wf o = true -> kinv s -> qseteq (quads s) a -> step_ok e k o s a.
-Proof.
-  intros Hp Hd Hkf Hwf Hk Ha.
+  intros Hd Hkf Hk Ha.
   destruct o as [ts qs|ts qs|tm om|w ud un d i om|sl g|sl g|sl x y|sl x y|sl x y].
   - apply insert_data_ok; auto.
   - apply delete_data_ok; auto.
   - apply delete_where_ok; auto.
   - apply modify_ok; auto.
   - apply clear_ok; auto.
-  - destruct (has_dataset e) eqn:Hds; [apply drop_ok; auto|].
-    destruct Hd as [Hd|Hd]; [discriminate|]. simpl in Hkf. rewrite Hds in Hkf. simpl in Hkf.
-    destruct g; simpl in Hd; discriminate.
+  - apply drop_ok; auto.
   - apply add_ok; auto.
   - apply move_ok; auto.
   - apply copy_ok; auto.
 Qed.
 
-(* one operation, outside the known-finding regions, is its transformer *)
-Theorem step_correct e k o s a :
-  has_dataset e = true \/ needs_dataset o = false ->
-  op_kf e k o = 0 -> op_wf o = true -> kinv s -> qseteq (quads s) a -> step_ok e k o s a.
-Proof.
-  intros Hd Hkf Hwf Hk Ha.
-  destruct (has_dataset e) eqn:Hds.
-  - destruct (eval_op_off e k o s Hds Hkf) as [E1 E2].
-    unfold step_ok. rewrite E1, <- spec_op_off. apply step_plain; auto.
-    apply off_plain; auto.
-  - apply step_plain; auto; [apply graph_plain; auto|].
-    destruct Hd as [Hd|Hd]; [discriminate|right; exact Hd].
-Qed.
+(* the switch is irrelevant to every evaluator *)
+Lemma eval_op_union e u k o s :
+  eval_op {| e_fe := e_fe e; e_union := u; e_lits := e_lits e; e_bnodes := e_bnodes e |} k o s = eval_op e k o s.
+Proof. reflexivity. Qed.
 
 Lemma kf_from_cons e k o r : kf_from e k (o :: r) = 0 -> op_kf e k o = 0 /\ kf_from e (N.succ k) r = 0.
 Proof. simpl. destruct (op_kf e k o); auto. discriminate. Qed.
@@ -115,28 +33,30 @@ Proof. simpl. destruct (op_kf e k o); auto. discriminate. Qed.
 (* a request: the operations in order *)
 Theorem sequence_correct e ops : forall k s a,
   has_dataset e = true \/ forallb (fun o => negb (needs_dataset o)) ops = true ->
-  kf_from e k ops = 0 -> forallb op_wf ops = true -> kinv s -> qseteq (quads s) a ->
+  kf_from e k ops = 0 -> kinv s -> qseteq (quads s) a ->
   exists s', eval_from e k ops s = Ok s' /\ qseteq (quads s') (spec_from e k ops a) /\ kinv s'.
 Proof.
-  induction ops as [|o r IH]; intros k s a Hd Hkf Hwf Hk Ha.
+  induction ops as [|o r IH]; intros k s a Hd Hkf Hk Ha.
   - exists s. simpl. auto.
-  - apply kf_from_cons in Hkf. destruct Hkf as [K1 K2]. simpl in Hwf. apply andb_true_iff in Hwf.
-    destruct Hwf as [W1 W2].
-    assert (Hd1 : has_dataset e = true \/ needs_dataset o = false).
-    { destruct Hd as [Hd|Hd]; auto. simpl in Hd. apply andb_true_iff in Hd. right. apply negb_true_iff. tauto. }
+  - apply kf_from_cons in Hkf. destruct Hkf as [K1 K2].
+    assert (Hd1 : scope e o).
+    { destruct Hd as [Hd|Hd]; [left; auto|]. simpl in Hd. apply andb_true_iff in Hd. right. apply negb_true_iff. tauto. }
     assert (Hd2 : has_dataset e = true \/ forallb (fun o => negb (needs_dataset o)) r = true).
     { destruct Hd as [Hd|Hd]; auto. simpl in Hd. apply andb_true_iff in Hd. tauto. }
-    destruct (step_correct e k o s a Hd1 K1 W1 Hk Ha) as [s1 [E1 [Q1 I1]]].
-    destruct (IH (N.succ k) s1 (spec_op e k o a) Hd2 K2 W2 I1 Q1) as [s2 [E2 [Q2 I2]]].
+    destruct (step_correct e k o s a Hd1 K1 Hk Ha) as [s1 [E1 [Q1 I1]]].
+    destruct (IH (N.succ k) s1 (spec_op e k o a) Hd2 K2 I1 Q1) as [s2 [E2 [Q2 I2]]].
     exists s2. simpl. rewrite E1. simpl. auto.
 Qed.
+
+(* every graph that holds a quad is known to the store (Memory.add) *)
+Definition wf (c : case) : Prop := forall q, In q (c_quads c) -> In (snd q) (c_known c).
 
 Lemma named_only_In l c : In c (named_only l) <-> In c l /\ c <> 0.
 Proof. unfold named_only. rewrite filter_In, negb_true_iff, N.eqb_neq. tauto. Qed.
 
 Theorem spec_ok_model c : wf c -> kf c = 0 -> spec_ok c (model_obs c) = true.
 Proof.
-  intros [W1 W2] Hkf. unfold spec_ok, model_obs.
+  intros W1 Hkf. unfold spec_ok, model_obs.
   destruct (in_scope (c_env c) (c_ops c)) eqn:Hs.
   2:{ destruct (eval_from _ _ _ _); reflexivity. }
   unfold in_scope in Hs. apply orb_true_iff in Hs.
@@ -195,23 +115,145 @@ Proof.
   - intros H. left. split; auto. intros H3. apply H1. apply (in_map snd) in H3. exact H3.
 Qed.
 
+Lemma data_quads_In' d ts qs q :
+  In q (data_quads d ts qs) ->
+  (snd q = d /\ In (fst q) ts) \/ exists b, In b qs /\ snd q = fst b /\ In (fst q) (snd b).
+Proof.
+  unfold data_quads. rewrite in_app_iff, to_graph_In, in_flat_map.
+  intros [[H1 H2]|[b [Hb H]]]; [left; auto|right]. apply to_graph_In in H. exists b. tauto.
+Qed.
+
 (* ------------------------------------------------------------------ *)
 (* fresh blank nodes                                                    *)
 
-Lemma fresh_inj k i j x k' i' j' x' :
-  i < 256 -> j < 256 -> x < 256 -> i' < 256 -> j' < 256 -> x' < 256 ->
-  fresh k i j x = fresh k' i' j' x' -> k = k' /\ i = i' /\ j = j' /\ x = x'.
+Definition window (k : N) : N := FRESH + k * 16777216.
+
+Lemma fresh_inj k i x k' i' x' :
+  i < 256 -> x < 65536 -> i' < 256 -> x' < 65536 ->
+  fresh k i x = fresh k' i' x' -> k = k' /\ i = i' /\ x = x'.
 Proof. unfold fresh, FRESH. intros. lia. Qed.
 
-Lemma fresh_ge k i j x : FRESH <= fresh k i j x.
-Proof. unfold fresh, FRESH. lia. Qed.
+Lemma fresh_window k i x : i < 256 -> x < 65536 -> window k <= fresh k i x < window (k + 1).
+Proof. unfold fresh, window, FRESH. intros. lia. Qed.
 
-Lemma fresh_window k i j x : i < 256 -> j < 256 -> x < 256 ->
-  FRESH + k * 16777216 <= fresh k i j x < FRESH + (k + 1) * 16777216.
-Proof. unfold fresh, FRESH. intros. lia. Qed.
+(* every term of the store is below n: the supply hypothesis for the
+   operation whose window starts at n (BNode() returns a node not in use) *)
+Definition older (n : N) (a : qset) : Prop :=
+  forall q, In q a -> forall t, In t (triple_terms (fst q)) -> t < n.
+
+Definition triples_bounded (n : N) (ts : list triple) : Prop :=
+  forall t, In t ts -> forall x, In x (triple_terms t) -> x < n.
+Definition pos_bounded (n : N) (p : tpos) : Prop :=
+  match p with PConst t => t < n | PVar _ => True | PBnode x => x < 65536 end.
+Definition tmpl_bounded (n : N) (tm : tmpl) : Prop :=
+  forall b, In b (blocks tm) -> forall tp, In tp (snd b) ->
+    let '(x, y, z) := tp in pos_bounded n x /\ pos_bounded n y /\ pos_bounded n z.
+Definition omega_bounded (n : N) (om : list sol) : Prop :=
+  N.of_nat (length om) <= 256 /\ forall mu, In mu om -> forall p, In p mu -> snd p < n.
+(* constants and bound values of the k-th operation are terms in use before it *)
+Definition op_bounded (n : N) (o : uop) : Prop :=
+  match o with
+  | InsertData ts qs => triples_bounded n ts /\ forall b, In b qs -> triples_bounded n (snd b)
+  | Modify _ _ _ _ (Some i) om => tmpl_bounded n i /\ omega_bounded n om
+  | _ => True
+  end.
+
+(* template blank nodes: new with respect to every term of D, one node per
+   (solution, label), different labels and different solutions differ *)
+Theorem fresh_bnodes k a : older (window k) a -> forall i x, i < 256 -> x < 65536 ->
+  (forall q, In q a -> ~ In (fresh k i x) (triple_terms (fst q)))
+  /\ forall i' x', i' < 256 -> x' < 65536 -> fresh k i x = fresh k i' x' -> i = i' /\ x = x'.
+Proof.
+  intros Ho i x Hi Hx. split.
+  - intros q Hq Hin. apply (Ho q Hq) in Hin. destruct (fresh_window k i x Hi Hx) as [H1 _].
+    apply (N.lt_irrefl (fresh k i x)). eapply N.lt_le_trans; eauto.
+  - intros i' x' Hi' Hx' E. apply fresh_inj in E; auto. tauto.
+Qed.
+
+Lemma enum_from_bound {A} (l : list A) : forall n im, In im (enum_from n l) ->
+  n <= fst im < n + N.of_nat (length l).
+Proof.
+  induction l as [|y r IH]; intros n im; simpl; [tauto|].
+  intros [<-|H]; simpl; [lia|]. apply IH in H. lia.
+Qed.
+
+Lemma lookup_In v mu t : lookup v mu = Some t -> exists p, In p mu /\ snd p = t.
+Proof.
+  unfold lookup. destruct (find _ mu) eqn:E; [|discriminate]. intros [= <-].
+  apply find_some in E. exists p. tauto.
+Qed.
+
+Lemma window_mono k : window k <= window (k + 1).
+Proof. unfold window. lia. Qed.
+
+Lemma inst_pos_bound k i mu p t :
+  pos_bounded (window k) p -> (forall q, In q mu -> snd q < window k) -> i < 256 ->
+  inst_pos (fresh k i) mu p = Some t -> t < window (k + 1).
+Proof.
+  intros Hp Hmu Hi. pose proof (window_mono k). destruct p as [c|v|x]; cbn [inst_pos pos_bounded] in *.
+  - intros [= <-]. eapply N.lt_le_trans; eauto.
+  - intros E. apply lookup_In in E. destruct E as [q [Hq <-]]. apply Hmu in Hq. eapply N.lt_le_trans; eauto.
+  - intros [= <-]. destruct (fresh_window k i x Hi Hp) as [_ H2]. exact H2.
+Qed.
+
+Lemma fill_bound k i mu ts t :
+  (forall tp, In tp ts -> let '(x, y, z) := tp in
+     pos_bounded (window k) x /\ pos_bounded (window k) y /\ pos_bounded (window k) z) ->
+  (forall q, In q mu -> snd q < window k) -> i < 256 ->
+  In t (fill (fresh k i) mu ts) -> forall x, In x (triple_terms t) -> x < window (k + 1).
+Proof.
+  intros Hts Hmu Hi Ht x Hx. unfold fill in Ht. apply in_flat_map in Ht.
+  destruct Ht as [[[pa pb] pc] [Htp Ht]]. specialize (Hts _ Htp). simpl in Hts.
+  destruct Hts as [Ha [Hb Hc]]. unfold inst_tpat in Ht.
+  destruct (inst_pos (fresh k i) mu pa) eqn:Ea; [|destruct Ht].
+  destruct (inst_pos (fresh k i) mu pb) eqn:Eb; [|destruct Ht].
+  destruct (inst_pos (fresh k i) mu pc) eqn:Ec; [|destruct Ht].
+  destruct Ht as [<-|[]]. simpl in Hx.
+  destruct Hx as [<-|[<-|[<-|[]]]];
+    [eapply (inst_pos_bound k i mu pa)|eapply (inst_pos_bound k i mu pb)|eapply (inst_pos_bound k i mu pc)]; eauto.
+Qed.
+
+Lemma older_mono n m a : n <= m -> older n a -> older m a.
+Proof. intros H Ho q Hq t Ht. specialize (Ho q Hq t Ht). eapply N.lt_le_trans; eauto. Qed.
+
+(* the supply hypothesis is kept by every operation: after the k-th operation
+   every term of the store is below the window of operation k+1 *)
+Theorem older_step e k o a : op_bounded (window k) o -> older (window k) a ->
+  older (window (k + 1)) (spec_op e k o a).
+Proof.
+  intros Hb Ho. pose proof (window_mono k) as Hm.
+  assert (Ho' : older (window (k + 1)) a) by (eapply older_mono; eauto).
+  destruct o as [ts qs|ts qs|tm om|w ud un d i om|sl g|sl g|sl x y|sl x y|sl x y]; simpl;
+    intros q Hq t Ht.
+  - apply in_app_iff in Hq. destruct Hq as [Hq|Hq]; [eapply Ho'; eauto|].
+    destruct Hb as [B1 B2]. apply data_quads_In' in Hq.
+    destruct Hq as [[_ Hq]|[b [Hb' [_ Hq]]]].
+    + eapply N.lt_le_trans; [apply (B1 _ Hq _ Ht)|exact Hm].
+    + eapply N.lt_le_trans; [apply (B2 _ Hb' _ Hq _ Ht)|exact Hm].
+  - apply qdiff_In in Hq. eapply Ho'; [apply Hq|eauto].
+  - apply qdiff_In in Hq. eapply Ho'; [apply Hq|eauto].
+  - apply in_app_iff in Hq. destruct Hq as [Hq|Hq]; [apply qdiff_In in Hq; eapply Ho'; [apply Hq|eauto]|].
+    destruct i as [tm|]; [|destruct Hq]. destruct Hb as [Bt [Bl Bo]].
+    simpl in Hq. apply in_flat_map in Hq. destruct Hq as [im [Him Hq]].
+    unfold s_quads in Hq. apply in_flat_map in Hq. destruct Hq as [b [Hb' Hq]].
+    destruct (s_target _ _ _); [|destruct Hq]. apply to_graph_In in Hq. destruct Hq as [Hq _].
+    apply filter_In in Hq. destruct Hq as [Hq _].
+    apply enum_from_bound in Him as Hi. assert (Hmu : In (snd im) om) by (eapply enum_from_snd; eauto).
+    eapply (fill_bound k (fst im) (snd im) (snd b)); eauto; [intros tp Htp; apply (Bt b Hb' tp Htp)|lia].
+  - apply spec_clear_In in Hq. eapply Ho'; [apply Hq|eauto].
+  - apply spec_clear_In in Hq. eapply Ho'; [apply Hq|eauto].
+  - destruct (N.eqb _ _); [eapply Ho'; eauto|]. apply in_app_iff in Hq. destruct Hq as [Hq|Hq]; [eapply Ho'; eauto|].
+    apply to_graph_In in Hq. destruct Hq as [Hq _]. apply graph_of_In in Hq. eapply (Ho' _ Hq). exact Ht.
+  - destruct (N.eqb _ _); [eapply Ho'; eauto|]. apply drop_graph_In in Hq. destruct Hq as [Hq _].
+    apply in_app_iff in Hq. destruct Hq as [Hq|Hq]; [apply drop_graph_In in Hq; eapply Ho'; [apply Hq|eauto]|].
+    apply to_graph_In in Hq. destruct Hq as [Hq _]. apply graph_of_In in Hq. eapply (Ho' _ Hq). exact Ht.
+  - destruct (N.eqb _ _); [eapply Ho'; eauto|].
+    apply in_app_iff in Hq. destruct Hq as [Hq|Hq]; [apply drop_graph_In in Hq; eapply Ho'; [apply Hq|eauto]|].
+    apply to_graph_In in Hq. destruct Hq as [Hq _]. apply graph_of_In in Hq. eapply (Ho' _ Hq). exact Ht.
+Qed.
 
 (* ------------------------------------------------------------------ *)
-(* the historical loop (per solution: delete, then insert) is refuted   *)
+(* the historical definitions are refuted                               *)
 
 Definition swap_del : tmpl := {| t_triples := [(PVar 1, PVar 2, PVar 3)]; t_quads := [] |}.
 Definition swap_ins : tmpl := {| t_triples := [(PVar 3, PVar 2, PVar 1)]; t_quads := [] |}.
@@ -219,13 +261,21 @@ Definition swap_omega : list sol := [[(1, 1); (2, 3); (3, 2)]; [(1, 2); (2, 3); 
 Definition swap_env : env := {| e_fe := FDS; e_union := false; e_lits := []; e_bnodes := [] |}.
 Definition swap_init : dstate := {| quads := [((1, 3, 2), 0); ((2, 3, 1), 0)]; known := [0] |}.
 
+(* before the fix of F5: per solution delete-then-insert *)
 Lemma modify_prefix_refuted :
-  qseteqb (quads (evalModify_prefix 0 0 (Some swap_del) (Some swap_ins) swap_omega swap_init))
+  qseteqb (quads (evalModify_prefix swap_env 0 0 (Some swap_del) (Some swap_ins) swap_omega swap_init))
           (spec_op swap_env 0 (Modify None false false (Some swap_del) (Some swap_ins) swap_omega)
                    (quads swap_init)) = false
   /\ qseteqb (spec_op swap_env 0 (Modify None false false (Some swap_del) (Some swap_ins) swap_omega)
                       (quads swap_init)) (quads swap_init) = true.
 Proof. split; vm_compute; reflexivity. Qed.
+
+(* before the fix of F10a, switch on: DELETE DATA { 1 3 2 } also hit graph 1 *)
+Lemma deldata_prefix_union_refuted :
+  let s := {| quads := [((1, 3, 2), 0); ((1, 3, 2), 1)]; known := [0; 1] |} in
+  qseteqb (quads (deldata_prefix_union [(1, 3, 2)] s))
+          (spec_op swap_env 0 (DeleteData [(1, 3, 2)] []) (quads s)) = false.
+Proof. vm_compute; reflexivity. Qed.
 
 (* ------------------------------------------------------------------ *)
 (* Prop-level readings, one per operation                               *)
@@ -239,8 +289,6 @@ Proof.
   - intros [[H1 H2]|[b [Hb [H1 H2]]]]; [left; auto|right]. exists b. split; auto. apply to_graph_In. auto.
 Qed.
 
-Definition scope (e : env) (o : uop) : Prop := has_dataset e = true \/ needs_dataset o = false.
-
 Section Readings.
   Variables (e : env) (k : N) (s : dstate) (a : qset).
   Hypothesis Hk : kinv s.
@@ -250,7 +298,7 @@ Section Readings.
     exists s', eval_op e k (InsertData ts qs) s = Ok s' /\ kinv s' /\
       forall q, In q (quads s') <-> In q a \/ In q (data_quads (dflt e) ts qs).
   Proof.
-    intros Hs Hf. destruct (step_correct e k _ s a Hs Hf eq_refl Hk Ha) as [s' [E [Q I]]].
+    intros Hs Hf. destruct (step_correct e k _ s a Hs Hf Hk Ha) as [s' [E [Q I]]].
     exists s'. split; [|split]; auto. intros q. rewrite (Q q). simpl. apply in_app_iff.
   Qed.
 
@@ -258,29 +306,27 @@ Section Readings.
     exists s', eval_op e k (DeleteData ts qs) s = Ok s' /\ kinv s' /\
       forall q, In q (quads s') <-> In q a /\ ~ In q (data_quads (dflt e) ts qs).
   Proof.
-    intros Hs Hf. destruct (step_correct e k _ s a Hs Hf eq_refl Hk Ha) as [s' [E [Q I]]].
+    intros Hs Hf. destruct (step_correct e k _ s a Hs Hf Hk Ha) as [s' [E [Q I]]].
     exists s'. split; [|split]; auto. intros q. rewrite (Q q). simpl. apply qdiff_In.
   Qed.
 
   Lemma delete_where_reading tm om : scope e (DeleteWhere tm om) -> op_kf e k (DeleteWhere tm om) = 0 ->
-    no_bnode tm = true ->
     exists s', eval_op e k (DeleteWhere tm om) s = Ok s' /\ kinv s' /\
       forall q, In q (quads s') <-> In q a /\ ~ In q (s_all e false k (dflt e) (Some tm) om).
   Proof.
-    intros Hs Hf Hn. destruct (step_correct e k _ s a Hs Hf Hn Hk Ha) as [s' [E [Q I]]].
+    intros Hs Hf. destruct (step_correct e k _ s a Hs Hf Hk Ha) as [s' [E [Q I]]].
     exists s'. split; [|split]; auto. intros q. rewrite (Q q). simpl. apply qdiff_In.
   Qed.
 
   (* D' = (D \ U_mu del(mu)) U U_mu ins(mu), every deletion before any insertion *)
   Lemma modify_reading w ud un d i om :
     scope e (Modify w ud un d i om) -> op_kf e k (Modify w ud un d i om) = 0 ->
-    op_wf (Modify w ud un d i om) = true ->
     let dg := match w with Some c => c | None => dflt e end in
     exists s', eval_op e k (Modify w ud un d i om) s = Ok s' /\ kinv s' /\
       forall q, In q (quads s') <->
         (In q a /\ ~ In q (s_all e false k dg d om)) \/ In q (s_all e true k dg i om).
   Proof.
-    intros Hs Hf Hw dg. destruct (step_correct e k _ s a Hs Hf Hw Hk Ha) as [s' [E [Q I]]].
+    intros Hs Hf dg. destruct (step_correct e k _ s a Hs Hf Hk Ha) as [s' [E [Q I]]].
     exists s'. split; [|split]; auto. intros q. rewrite (Q q). simpl. fold dg.
     rewrite in_app_iff, qdiff_In. tauto.
   Qed.
@@ -295,7 +341,7 @@ Section Readings.
                     | GIri c => snd q = c
                     end.
   Proof.
-    intros Hs Hf. destruct (step_correct e k _ s a Hs Hf eq_refl Hk Ha) as [s' [E [Q I]]].
+    intros Hs Hf. destruct (step_correct e k _ s a Hs Hf Hk Ha) as [s' [E [Q I]]].
     exists s'. split; [|split]; auto. intros q. rewrite (Q q). simpl. apply spec_clear_In.
   Qed.
 
@@ -309,7 +355,7 @@ Section Readings.
                     | GIri c => snd q = c
                     end.
   Proof.
-    intros Hs Hf. destruct (step_correct e k _ s a Hs Hf eq_refl Hk Ha) as [s' [E [Q I]]].
+    intros Hs Hf. destruct (step_correct e k _ s a Hs Hf Hk Ha) as [s' [E [Q I]]].
     exists s'. split; [|split]; auto. intros q. rewrite (Q q). simpl. apply spec_clear_In.
   Qed.
 
@@ -318,7 +364,7 @@ Section Readings.
       forall q, In q (quads s') <->
         In q a \/ (gd_cid e x <> gd_cid e y /\ snd q = gd_cid e y /\ In (fst q, gd_cid e x) a).
   Proof.
-    intros Hs Hf. destruct (step_correct e k _ s a Hs Hf eq_refl Hk Ha) as [s' [E [Q I]]].
+    intros Hs Hf. destruct (step_correct e k _ s a Hs Hf Hk Ha) as [s' [E [Q I]]].
     exists s'. split; [|split]; auto. intros q. rewrite (Q q). simpl.
     destruct (N.eqb_spec (gd_cid e x) (gd_cid e y)); [tauto|].
     rewrite in_app_iff, to_graph_In, graph_of_In. tauto.
@@ -330,7 +376,7 @@ Section Readings.
         if N.eqb (gd_cid e x) (gd_cid e y) then In q a
         else (In q a /\ snd q <> gd_cid e y) \/ (snd q = gd_cid e y /\ In (fst q, gd_cid e x) a).
   Proof.
-    intros Hs Hf. destruct (step_correct e k _ s a Hs Hf eq_refl Hk Ha) as [s' [E [Q I]]].
+    intros Hs Hf. destruct (step_correct e k _ s a Hs Hf Hk Ha) as [s' [E [Q I]]].
     exists s'. split; [|split]; auto. intros q. rewrite (Q q). simpl.
     destruct (N.eqb (gd_cid e x) (gd_cid e y)); [tauto|].
     rewrite in_app_iff, drop_graph_In, to_graph_In, graph_of_In. tauto.
@@ -343,7 +389,7 @@ Section Readings.
         else snd q <> gd_cid e x /\
              ((In q a /\ snd q <> gd_cid e y) \/ (snd q = gd_cid e y /\ In (fst q, gd_cid e x) a)).
   Proof.
-    intros Hs Hf. destruct (step_correct e k _ s a Hs Hf eq_refl Hk Ha) as [s' [E [Q I]]].
+    intros Hs Hf. destruct (step_correct e k _ s a Hs Hf Hk Ha) as [s' [E [Q I]]].
     exists s'. split; [|split]; auto. intros q. rewrite (Q q). simpl.
     destruct (N.eqb (gd_cid e x) (gd_cid e y)); [tauto|].
     rewrite drop_graph_In, in_app_iff, drop_graph_In, to_graph_In, graph_of_In. tauto.
@@ -365,15 +411,3 @@ Proof.
   - apply iso_eqb_sound. exact H.
 Qed.
 
-(* template blank nodes: one node per (operation, solution, label) in the
-   specification, new with respect to a store whose terms are older *)
-Lemma sfresh_inj k i tm x k' i' tm' x' :
-  i < 256 -> x < 256 -> i' < 256 -> x' < 256 ->
-  first_block tm x < 256 -> first_block tm' x' < 256 ->
-  sfresh k i tm x = sfresh k' i' tm' x' -> k = k' /\ i = i' /\ x = x'.
-Proof.
-  unfold sfresh. intros. apply fresh_inj in H5; auto. tauto.
-Qed.
-
-Lemma inst_pos_bnode fr mu x : inst_pos fr mu (PBnode x) = Some (fr x).
-Proof. reflexivity. Qed.
